@@ -1,7 +1,7 @@
 (* C15 — formatting never changes the program: the line-edit logic of range and on-type formatting,
    for an arbitrary formatter and arbitrary documents (Model/FmtEdit.v). *)
-From Coq Require Import List Bool Arith.
-From TP Require Import Model.FmtEdit Proofs.C15Proofs.
+From Coq Require Import List Bool Arith ZArith NArith.
+From TP Require Import Model.FmtEdit Proofs.C15Proofs Model.FmtIndent gen.C15Kinds Spec.C15Judge Proofs.C15Indent.
 Import ListNotations.
 
 (* if the formatter keeps every line's tokens on that line (same number of lines), every range / on-type edit preserves the tokens *)
@@ -18,6 +18,31 @@ Theorem wrapped_range_edit_refuted :
   range_edit nat wrap_src wrap_fmt 1 1 = Some [[1; 2; 3; 4]; [3; 4]] /\
   toks nat [[1; 2; 3; 4]; [3; 4]] <> toks nat wrap_src.
 Proof. exact wrapped_range_edit_changes_tokens. Qed.
+
+(* --- the indentation pass of format_document (Model/FmtIndent.v; kind sets and the clamp are read from the source) --- *)
+(* for every document - balanced or not - and both END-keyword styles the formatter never asks for a negative number of
+   indentation units (`indent_unit.repeat(current_indent as usize)` is defined: no capacity-overflow panic) *)
+Theorem indentation_is_never_negative : forall style (lines : list (bool * list N)),
+  all_nonneg (doc_indents style lines) = true.
+Proof. exact doc_indents_nonneg_l. Qed.
+(* ... which is false without the clamp after an END keyword of the `indented` style (the code as found) *)
+Theorem unclamped_indentation_refuted :
+  indents refute_cfg 0 refute_lines = [Some 0; Some (-1)]%Z /\ all_nonneg (indents refute_cfg 0 refute_lines) = false.
+Proof. exact unclamped_negative_l. Qed.
+(* a block-structured run of lines leaves the level where it was and is written at or to the right of it, in both styles *)
+Theorem balanced_lines_restore_indentation : forall c ls lvl, balanced ls -> (0 <= lvl)%Z ->
+  final c lvl ls = lvl /\ lower lvl (indents c lvl ls).
+Proof. exact balanced_restores_l. Qed.
+Theorem end_keywords_are_dedent_tokens : forall k, In k end_kinds -> In k dedent_kinds.
+Proof. exact end_kinds_are_dedent_l. Qed.
+Theorem c15_indent_nonvacuous : balanced demo_lines /\
+  indents {| aligned := true; clamp := true |} 0 demo_lines = [Some 0; Some 1; Some 2; Some 1; Some 1; Some 2; Some 1; None; Some 2; Some 1; Some 0]%Z /\
+  indents {| aligned := false; clamp := true |} 0 demo_lines = [Some 0; Some 1; Some 2; Some 2; Some 1; Some 2; Some 1; None; Some 2; Some 2; Some 1]%Z.
+Proof. exact (conj demo_balanced demo_indents). Qed.
 Print Assumptions range_edit_preserves_tokens.
+Print Assumptions indentation_is_never_negative.
+Print Assumptions unclamped_indentation_refuted.
+Print Assumptions balanced_lines_restore_indentation.
+Print Assumptions end_keywords_are_dedent_tokens.
 Print Assumptions range_edit_touches_only_its_lines.
 Print Assumptions wrapped_range_edit_refuted.
